@@ -61,6 +61,10 @@ def objective(name, lb, ub):
         return lambda y: np.sum(y)
     if name == 'plateau':
         return lambda y: np.floor(2.0 * np.sum(np.abs(y)))
+    if name == 'tiny_negative':                        # values in [-0.05, 0)
+        return lambda y: -0.05 / (1.0 + min(np.sum(y ** 2), 1e12))
+    if name == 'tiny_positive':                        # values in (0, 0.05]
+        return lambda y: 0.05 / (1.0 + min(np.sum(y ** 2), 1e12))
     if name == 'float_max':
         return lambda y: FLOAT_MAX
     raise KeyError(name)
@@ -236,6 +240,11 @@ def tree_parts(tree):
     return nodes, arrs
 
 
+def tree_value(t):
+    """Value of a tree computed on a private deep copy, so that observing never touches the live terminal arrays."""
+    return np.array(copy.deepcopy(t).position, copy=True, dtype=float)
+
+
 def tree_ser(n):
     if n is None:
         return None
@@ -360,7 +369,7 @@ class Monitor:
         if self.cfg['space'] == 'tree':
             exp = []
             for t in getattr(space, 'trees', []):
-                p = np.array(t.position, copy=True, dtype=float)
+                p = tree_value(t)
                 exp.append(np.clip(p, self.lo, self.hi) if p.shape == self.shape else p)
             h['expected_sweep'] = exp
         else:
@@ -497,7 +506,7 @@ class Monitor:
         finite_run = self.first_bad is None
         sentinel = not (float(space.best_agent.fit) < FLOAT_MAX)
         if not sentinel:
-            bp = np.asarray(bt.position, dtype=float)
+            bp = tree_value(bt)
             cl = np.clip(bp, self.lo, self.hi) if bp.shape == self.shape else bp
             if not eqarr(cl, space.best_agent.position):
                 self.v('C12', 'best-tree-value-differs-from-best-position', 'clip(best_tree.position) differs from best_agent.position (%s)' % when,
@@ -508,7 +517,7 @@ class Monitor:
                     self.v('C12', 'best-fit-not-f(best-position)', 'f(best_agent.position)=%r differs from best_agent.fit=%r (%s)' % (fv, space.best_agent.fit, when),
                            fv, space.best_agent.fit)
         for i, (t, a) in enumerate(zip(trees, space.agents)):
-            tp = np.asarray(t.position, dtype=float)
+            tp = tree_value(t)
             cl = np.clip(tp, self.lo, self.hi) if tp.shape == self.shape else tp
             if not eqarr(cl, a.position):
                 self.v('C12', 'agent-position-differs-from-tree-value', 'agent %d position differs from clip(tree %d value) (%s)' % (i, i, when), a.position, cl)
@@ -656,10 +665,16 @@ def failure_class(mon):
         return 'zero-cost'                       # sum of the fitnesses evaluated by the update
     if name == 'WCA' and last and sum(last[:getattr(mon.opt, 'nsr', 2)]) == 0:
         return 'zero-cost'                       # sum of the first nsr fitnesses
+    if mon.outcome.get('status') == 'timeout' and vals and all(v < 0 for v in vals) and -sum(last) < 1e-10:
+        return 'negative-fitness-sum-within-epsilon'   # total + EPSILON >= 0 although every fitness is negative
+    if mon.outcome.get('status') == 'timeout' and vals and (all(v < 0 for v in vals) or all(v > 0 for v in vals)):
+        return 'constant-sign-objective'         # a hang although every value has the same sign (not finding (e))
     if last and all(v == last[0] for v in last):
         return 'equal-fitness'
     if any(v > 0 for v in vals) and any(v < 0 for v in vals):
         return 'sign-changing'
+    if mon.outcome.get('status') == 'timeout' and vals and (all(v < 0 for v in vals) or all(v > 0 for v in vals)):
+        return 'constant-sign-objective'
     return 'other'
 
 
@@ -902,7 +917,7 @@ def check_gp_records(mon):
     for t, (bt, ba) in enumerate(zip(bts, hist.best_agent)):
         if not (float(ba[1]) < FLOAT_MAX):
             continue
-        bp = np.asarray(bt.position, dtype=float)
+        bp = tree_value(bt)
         cl = np.clip(bp, mon.lo, mon.hi) if bp.shape == mon.shape else bp
         if not eqarr(cl, np.asarray(ba[0], dtype=float)):
             mon.v('C12', 'recorded-best-tree-differs-from-recorded-best-position', 'record %d: clip(best_tree.position) differs from the recorded best position' % t,
